@@ -51,7 +51,7 @@ def run_job(job):
         # vacuity guard: reachability twins (same precondition; must come back 'violated')
         if res["verdict"] == "confirmed" and not job.get("no_twin"):
             from .hx import Reached
-            labels = ["end"] + list(getattr(mod, "REACH", {}).get(job["harness"], []))
+            labels = ["end"] + list(job["reach"] if "reach" in job else getattr(mod, "REACH", {}).get(job["harness"], []))
             twins = {}
             for label in labels:
                 p2 = dict(params)
